@@ -30,6 +30,10 @@ def defects(rng):
         ("unsupported colour syntax in a gradient stop", [f for f in VECTOR if "colr" in f], [("emoji_u1f9d0.svg", (g % "").replace('stop-color="red"', 'stop-color="rgb(100%, 0%, 0%)"'))], []),
         ("unknown spreadMethod", [f for f in VECTOR if "untouched" not in f and f != "glyf"], [("emoji_u1f9d0.svg", g % 'spreadMethod="bogus"')], []),
         ("palette index conflict", [f for f in VECTOR if "colr" in f], [("emoji_u1f9d0.svg", good(1, "var(--color1, red)")), ("emoji_u1f9d1.svg", good(2, "var(--color1, blue)"))], []),
+        ("palette index conflict between a fill and a gradient stop", [f for f in VECTOR if "colr" in f and not f.endswith("_0")],
+         [("emoji_u1f9d0.svg", good(1, "var(--color1, red)")), ("emoji_u1f9d1.svg", (g % "").replace('stop-color="blue"', 'stop-color="var(--color1, blue)"'))], []),
+        ("palette index conflict between two gradient stops", [f for f in VECTOR if "colr" in f and not f.endswith("_0")],
+         [("emoji_u1f9d0.svg", (g % "").replace('stop-color="red"', 'stop-color="var(--color2, red)"')), ("emoji_u1f9d1.svg", (g % "").replace('stop-color="blue"', 'stop-color="var(--color2, blue)"').replace("M10,10", "M12,10"))], []),
         ("bitmap too big for CBDT", ["cbdt"], [("emoji_u1f9d0.svg", good(1))], ["--bitmap_resolution", "300"]),
     ]
 
@@ -89,7 +93,7 @@ def run_masters(report, rng):
     vf = ('output_file = "VF.ttf"\ncolor_format = "glyf_colr_1"\n[axis.wght]\nname = "Weight"\ndefault = 400\n'
           '[master.a]\nstyle_name = "A"\nsrcs = ["a/*.svg"]\n[master.a.position]\nwght = 400\n'
           '[master.b]\nstyle_name = "B"\nsrcs = ["b/*.svg"]\n[master.b.position]\nwght = 700\n')
-    for which in ("later master lacks a source", "later master has an extra source", "control (masters agree)"):
+    for which in ("later master lacks a source", "later master has an extra source", "masters have as many sources but not the same ones", "control (masters agree)"):
         with scratch_dir("verif-c17m-") as d:
             n = rng.randint(1, 3)
             for m in ("a", "b"):
@@ -100,6 +104,8 @@ def run_masters(report, rng):
                 (d / "b" / f"emoji_u{0x1F600 + n - 1:x}.svg").unlink()
                 (d / "a" / f"emoji_u{0x1F600 + n:x}.svg").write_text(good(5))  # so that b is not empty
                 (d / "b" / f"emoji_u{0x1F600 + n:x}.svg").write_text(good(6))
+            elif which.startswith("masters have as many"):
+                (d / "b" / f"emoji_u{0x1F600 + n - 1:x}.svg").rename(d / "b" / f"emoji_u{0x1F600 + n + 3:x}.svg")
             elif which.startswith("later master has"):
                 (d / "b" / f"emoji_u{0x1F600 + n + 1:x}.svg").write_text(good(6))  # same colour: the palettes of the masters agree
             (d / "vf.toml").write_text(vf)
